@@ -263,6 +263,83 @@ def cfg(N, rounds=None):
     return c
 
 
+# ------------------------------------------------------------------------------------------------ rewind on a changed write set (L = 2)
+def exec_stub_ws(N, L):
+    def stub(tr, c):
+        """executor.execute_incarnation: succeeds, reads nothing, writes a solver-chosen subset of the L locations (wnew[]),
+        optionally reports an estimate blocker"""
+        d = c.dest()
+        res, acc = d.node.f("result"), d.node.f("accesses")
+        rs, ws, bt = acc.f("read_set"), acc.f("write_set"), acc.f("blocking_txs")
+        for k in range(bt.f("present").cap):
+            tr.emit(f"{bt.f('present').elem.name}{hz.sub(d.idxs + [str(k)])} = (exec_blocked && exec_blocker == {k});")
+        for l in range(L):
+            tr.emit(f"{rs.f('present').elem.name}{hz.sub(d.idxs + [str(l)])} = 0; {rs.f('keys').elem.fields[0].name}{hz.sub(d.idxs + [str(l)])} = {l};")
+            tr.emit(f"{ws.f('present').elem.name}{hz.sub(d.idxs + [str(l)])} = wnew[{l}]; {ws.f('keys').elem.fields[0].name}{hz.sub(d.idxs + [str(l)])} = {l};")
+        tr.emit(f"{tr.lv(Loc(acc.f('blocked_by_beneficiary'), d.idxs))} = 0;")
+        oki = res.vindex("Ok")
+        tr.emit(f"{tr.lv(Loc(res.discr, d.idxs))} = {oki}; {tr.lv(Loc(res.variants[oki][1].fields[0].fields[0], d.idxs))} = 7;")
+    return stub
+
+
+def build_rewind(N, L):
+    def b(tr):
+        H = hz.Harness(tr, "c02_rewind")
+        S = H.local("S", "Scheduler<DB>")
+        sc.freeze_sched(H, S, N)
+        k = K(H, S, N)
+        sc.init_sched(H, S, N); sc.init_ctx(H, S, N); sc.init_tx_tables(H, S, N, L)
+        H.cvar("wnew", "_Bool", dims=[L], shared=False); H.cvar("wold", "_Bool", dims=[L], shared=False); H.cvar("had_prev", "_Bool", shared=False)
+        H.cvar("exec_blocked", "_Bool", shared=False); H.cvar("exec_blocker", "usize", shared=False)
+        H.cvar("T", "usize", shared=False); H.cvar("clk0", "usize", shared=False); H.cvar("val0", "usize", shared=False)
+        H.c(f"T = nondet_usize(); __CPROVER_assume(T < {N}); exec_blocked = nondet_bool(); exec_blocker = nondet_usize(); __CPROVER_assume(exec_blocker < T || !exec_blocked);")
+        H.c("if (T == 0) exec_blocked = 0;")
+        H.c(f"clk0 = nondet_usize(); __CPROVER_assume(clk0 >= 1 && clk0 < 200); {k.ctx('logical_clock')} = clk0;")
+        H.c(f"val0 = nondet_usize(); __CPROVER_assume(val0 <= {N}); {k.ctx('validation')} = val0;")
+        H.c(f"{k.ctx('finality')} = nondet_usize(); {k.ctx('committed')} = nondet_usize(); __CPROVER_assume({k.ctx('committed')} <= {k.ctx('finality')} && {k.ctx('finality')} <= T);")
+        for i in range(N):
+            H.c(f"{k.lower(i)} = nondet_usize(); {k.unconf(i)} = nondet_usize(); __CPROVER_assume({k.lower(i)} < clk0 && {k.unconf(i)} < clk0);")
+            H.c(f"{k.status(i)} = nondet_uchar(); __CPROVER_assume({k.status(i)} <= 6); {k.inc(i)} = nondet_usize(); __CPROVER_assume({k.inc(i)} <= 3);")
+        H.c(f"__CPROVER_assume({k.status('T')} == {ST['Executing']} && {k.inc('T')} == 2);")
+        # T's previous result: none, or one with an arbitrary write set; MV memory: arbitrary entries
+        ws = H.nav(k.trn, "Some.0.write_set"); rs = H.nav(k.trn, "Some.0.read_set")
+        H.c(f"had_prev = nondet_bool(); {H.lv(k.trn, 'd', ['T'])} = had_prev; {H.lv(k.trn, 'Some.0.execute_result.d', ['T'])} = 0;")
+        for l in range(L):
+            H.c(f"wnew[{l}] = nondet_bool(); wold[{l}] = nondet_bool();")
+            H.c(f"{H.lv(ws, 'present.e', ['T', l])} = wold[{l}]; {H.lv(ws, 'keys.e.id', ['T', l])} = {l}; {H.lv(rs, 'present.e', ['T', l])} = 0;")
+            H.c(f"{H.lv(k.mv, 'data.present', [l])} = nondet_bool();")
+            for a in range(N):
+                H.c(f"{H.lv(k.mv, 'data.val.present.e', [l, a])} = nondet_bool(); {H.lv(k.mv, 'data.val.vals.e.incarnation', [l, a])} = nondet_usize(); {H.lv(k.mv, 'data.val.vals.e.estimate', [l, a])} = nondet_bool();")
+        t2 = H.local("taskr", "Option<Task>")
+        H.call("Scheduler::execute_task", [H.ref(S), VUnit(), VUnit(), VAgg([H.val("T"), H.val("2")])], t2)
+        newloc = "(!had_prev || " + " || ".join(f"(wnew[{l}] && !wold[{l}])" for l in range(L)) + ")"
+        ab = H.lv(S, "abort")
+        H.assert_(f"!{ab}", "a consistent attempt never aborts the block")
+        low = lambda i: f"({k.lower(i)} >= clk0)"
+        for t in range(N - 1):
+            H.assert_(f"!(T == {t} && {newloc}) || ({k.ctx('validation')} <= {t + 1} && ({low(t)} || {low(t + 1)}))",
+                      f"tx {t} published a location its previous incarnation had not written (or its first result): every later transaction is sent back "
+                      f"through validation (cursor rewound to at most {t + 1}, and a fresh lower timestamp fences validations made before)")
+        for t in range(N - 1):
+            H.assert_(f"!(T == {t} && exec_blocked) || ({k.status(t)} == {ST['Conflict']} && {k.ctx('validation')} <= {t + 1} && {low(t + 1)})",
+                      f"tx {t} blocked on an estimate: Conflict, and its successors are revalidated")
+        H.assert_(f"exec_blocked || {k.status('T')} == {ST['Executed']} || {k.status('T')} == {ST['Validating']} || {H.lv(t2, 'd')} == 1",
+                  "an unblocked successful attempt ends Executed / Validating (or handed its successor on)")
+        H.cover(f"had_prev && !exec_blocked && wnew[1] && !wold[1] && wold[0] && !wnew[0]", "write set moved from location 0 to location 1 (same size)")
+        H.cover(f"had_prev && !exec_blocked && !{newloc} && {H.lv(t2, 'd')} == 1", "no new location: a task is handed back without rewinding")
+        return H
+    return b
+
+
+def cfg_rewind(N, L):
+    stubs = dict(sc.bene_true_stubs())
+    stubs["<impl ParallelTransactionExecutor as ParallelTransactionExecutor>::execute_incarnation"] = exec_stub_ws(N, L)
+    c = sc.mv_cfg(N, L=L, stubs=stubs)
+    c["loops"] = {"Scheduler::execute_task": {"*": (L + 2, "assert")}, "Scheduler::mark_mv_estimate": {"*": (L + 2, "assert")},
+                  "ExecutionFrontier::advance": {"*": (N + 2, "assert")}, "TxDependency::remove": {"*": (N + 1, "assert")}}
+    return c
+
+
 def specs(tier):
     N = 3
     out = []
@@ -272,6 +349,9 @@ def specs(tier):
                         desc=f"inductive step, roles {' || '.join(roles)} (V validation worker, R executing worker, F finality step) from an arbitrary INV state"
                              + ("; second role runs atomically at any conflicting visible operation of the first (context bound A|B|A)" if len(roles) == 2 else ""),
                         bounds={"n": N, "locations": 1, "threads": len(roles), "memory_model": "SC", "context_switches": 2 if len(roles) == 2 else 0}))
+    out.append(Spec("rewind_on_new_write_n3_l2", build_rewind(N, 2), cfg=cfg_rewind(N, 2), unwind=N + 3, timeout=1800,
+                    desc="real execute_task over TWO locations, previous and new write sets any subsets: a location not written before (incl. a moved write of the same size) "
+                         "rewinds validation for every later transaction", bounds={"n": N, "locations": 2, "threads": 1}))
     if tier == "thorough":
         for roles in (["F", "R"], ["F", "V"]):
             nm = "".join(roles)
